@@ -192,7 +192,7 @@ end Desper.World
 namespace Desper.World
 open Desper
 
-theorem attachEvents_registered (U : Universe) (s : St) (o : Obj) (ent : Option Ent) :
+theorem attachEvents_registered (U : Universe) [U.NoReenter] (s : St) (o : Obj) (ent : Option Ent) :
     (attachEvents U s o ent).1.registered =
       if (U.mapOf o).isSome then insertSorted s.registered o else s.registered := by
   unfold attachEvents
@@ -248,7 +248,7 @@ theorem preReg_attachTables {U : Universe} {s : St} {pending : List Obj} (h : Pr
     · exact (hatt o).mpr (.inl (h.pendAtt o ho))
 
 /-- event loop: one pending object gets registered -/
-theorem preReg_attachEvents {U : Universe} {s : St} {pending : List Obj} (c : Obj) (e : Ent)
+theorem preReg_attachEvents {U : Universe} [U.NoReenter] {s : St} {pending : List Obj} (c : Obj) (e : Ent)
     (h : PreReg U s pending) (hc : c ∈ pending) :
     PreReg U (attachEvents U s c (some e)).1 (pending.filter (· ≠ c)) := by
   have ht := attachEvents_tables U s c (some e)
@@ -362,7 +362,7 @@ theorem attached_removeComponent_sub {U : Universe} [U.Passive] (hn : NoRaise U)
     rw [attached_sameTables hsame, attached_detach h e st c hc] at ha
     exact ha.1
 
-theorem removeComponent_sorted (U : Universe) (s : St) (e : Ent) (t : Ty) :
+theorem removeComponent_sorted (U : Universe) [U.NoReenter] (s : St) (e : Ent) (t : Ty) :
     (removeComponent U s e t).1.sorted = s.sorted := (removeComponent_procs U s e t).sorted
 
 theorem attached_removeTypes_sub {U : Universe} [U.Passive] (hn : NoRaise U) (e : Ent) (ts : List Ty) :
@@ -465,7 +465,7 @@ end Desper.World
 namespace Desper.World
 open Desper
 
-theorem regInv_attachOne {U : Universe} (hn : NoRaise U) {s : St} (h : RegInv U s) (e : Ent) (c : Obj)
+theorem regInv_attachOne {U : Universe} [U.NoReenter] (hn : NoRaise U) {s : St} (h : RegInv U s) (e : Ent) (c : Obj)
     (hslot : Dict.get? (row s e) (tyOf U c) = none) (hfresh : ¬ Attached s c) (hns : c ∉ s.sorted) :
     RegInv U (attachEvents U (attachTables U s e c) c (some e)).1 := by
   have h1 := preReg_attachTables (preReg_of_regInv h) e c hslot hfresh hns
@@ -760,7 +760,7 @@ end Desper.World
 namespace Desper.World
 open Desper
 
-theorem removeProcs_ents (U : Universe) (s : St) (ps : List Obj) :
+theorem removeProcs_ents (U : Universe) [U.NoReenter] (s : St) (ps : List Obj) :
     (removeProcs U s ps).1.ents = s.ents := by
   induction ps generalizing s with
   | nil => rfl
